@@ -283,6 +283,11 @@ def gen_run(seed, i, tier):
         else:
             run["nbins"] = int((1, 2, 5, 300)[(i // 5) % 4])
             run["sig"] = r.standard_normal(n) + 0.3
+            if (i // 5) % 6 == 3:
+                # a dead channel: every per-frequency task fails (no cycles to count);
+                # serial raises, so the pool must not hand back its zero-filled tables
+                run["sig"] = np.zeros(n)
+                run["expect_raise"] = True
             run["opts"] = dict(rolloff=("lanczos", "none", "fft")[int(r.integers(0, 3))],
                                T0=float(r.choice([60.0, 17.0])))
         run["freq"] = freq
@@ -399,10 +404,27 @@ def run_one(sh, srs, fdepsd, run):
     try:
         ref = call("no")
     except Exception as e:
+        if run.get("expect_raise"):
+            # same outcome demanded of the parallel path: it raises as well
+            sh.case(desc, nontrivial=True, sample=case)
+            sh.count("mon:failure-propagates")
+            sh.count("cell:serial-raises")
+            try:
+                out = call(run.get("mode", "yes"))
+            except Exception as e2:
+                if type(e2) is not type(e):
+                    sh.count("cell:failure-propagates-other-type")
+                return
+            sh.violation("failure-propagates", case,
+                         {"serial": repr(e)[:200], "parallel": "returned " + type(out).__name__},
+                         tags)
+            return
         sh.case(desc, nontrivial=False, sample=case)
         sh.violation("harness-exception", case, {"where": "serial", "exc": repr(e)[:400]},
                      tags)
         return
+    if run.get("expect_raise"):
+        sh.count("cell:expected-raise-did-not-raise")
     # -- parallel under the delay plan ----------------------------------------------
     log = os.path.join(os.getcwd(), "c09_%d.log" % run["i"])
     if os.path.exists(log):
@@ -589,7 +611,8 @@ def run_shard(sh, params):
                          {"exc": traceback.format_exc()[-1500:]}, {})
 
 
-MANDATORY = (["runs", "mon:log-check", "mon:sentinel", "mon:earlier-result-unmutated", "mon:srs-sh-bytes",
+MANDATORY = (["runs", "mon:log-check", "mon:sentinel", "mon:earlier-result-unmutated",
+              "mon:failure-propagates", "mon:srs-sh-bytes",
               "mon:srs-hist-bytes", "mon:srs-t-bytes", "mon:fde-psd-bytes",
               "mon:fde-count-bytes", "mon:fde-binamps-bytes", "mon:fde-srs-bytes",
               "mon:fde-var-bytes", "mon:fde-di_sig-bytes", "freq:0Hz", "freq:repeated",
